@@ -25,7 +25,7 @@ from ..lin import Facts
 from .. import astq
 from ._c05_arrays import (AInterp, Q, Env, Uneval, Nd, Src, Buf, View, Cat, Flat, Resh2, ColAgg, Tile, Rep, Elem, Ser,
                           SYMDEFS, CONST_VECS, ZERO, ONE, OOB, const_vec, entails, sym_elem, sym_mod, subst_val, vec_len, is_nan)
-from .c05 import Ob, eq_lin, feasible, loop_envs, resolve, fmt, witness_text, construct, run_method
+from .c05 import Ob, eq_lin, feasible, nonvacuous, loop_envs, resolve, fmt, witness_text, construct, run_method
 
 NAIVE = "sktime/forecasting/naive.py"
 TREND = "sktime/forecasting/trend.py"
@@ -222,6 +222,13 @@ def rule_r1(ctx, repo, runs):
                               "" if sl is None or sl == -1 else " - %s" % (-sl - 1)), loc, witness={"slack": str(sl)})
         ctx.check(run.selfv.attrs.get("_is_fitted") == K(True), "R1", sc.tag + ":fitted", "fit completes",
                   "fit does not reach the fitted state", loc)
+    # drift through a single point is rejected (the scenarios above assume window_length >= 2 for drift)
+    rec = Rec()
+    it = make_interp(repo, rec)
+    selfv = construct(repo, it, cls, {"strategy": K("drift"), "window_length": ONE, "sp": ONE})
+    traces, k, f2 = run_method(repo, it, selfv, "fit", {"y": Ser("y", N, T), "X": K(None), "fh": FH}, Scen("drift", False, False).facts())
+    ctx.check(bool(traces) and all(o[0] == "raise" for s, o in traces), "R1", "NaiveForecaster[drift,window_length=1]:rejected",
+              "drift with window_length == 1 is rejected on every path", "drift with window_length == 1 is accepted (no line through one point)", loc)
     # unknown strategy -> rejected on every path
     rec = Rec()
     it = make_interp(repo, rec)
@@ -280,6 +287,8 @@ def positions_of(content, q):
         return None
     if content[0] == "src" and content[1] == "y":
         return {int(content[2][0].const)}
+    if content[0] == "fill" and content[1] != "nan" and isinstance(content[1], (int, Lin)):
+        return {"constant %r" % (content[1],)}
     if content[0] == "mean":
         out = set()
         for m in content[1]:
@@ -324,8 +333,8 @@ def grid_alignment(sc, term, facts, envs):
                     sp = env.ints.get("sp")
                     extra = {}
                     if sp:
-                        extra = {"season_used": sorted({p % sp for p in got}), "season_of_target": (int(env.eval(N)) - 1 + h) % sp}
-                    return dict(env.describe(), step=h, used_positions=sorted(got), expected_positions=sorted(want), **extra)
+                        extra = {"season_used": sorted({p % sp for p in got if isinstance(p, int)}), "season_of_target": (int(env.eval(N)) - 1 + h) % sp}
+                    return dict(env.describe(), step=h, used_positions=sorted(got, key=str), expected_positions=sorted(want), **extra)
         except Uneval:
             continue
     return None
@@ -367,7 +376,7 @@ def classify(term, e, q):
         if inner.kind == "cls" and q.eq(inner.m, m) is True:
             return Cls("cls", inner.pos.subst({"@e": e}), m, inner.lo, inner.hi)
         return None
-    if isinstance(term, ColAgg) and term.shape and isinstance(term.base, Resh2):
+    if isinstance(term, ColAgg) and term.shape and term.axis == 0 and isinstance(term.base, Resh2):
         r = term.base
         m = r.cols
         flat = r.base
@@ -375,7 +384,7 @@ def classify(term, e, q):
         start = ZERO
         data = []
         for p in parts:
-            if isinstance(p, Buf) and p.fill == "nan" and not p.stores and not p.poisoned:
+            if isinstance(p, Buf) and not p.stores and not p.poisoned and (p.fill == "nan" or q.eq(p.shape[0], ZERO) is True):
                 start = start + p.shape[0]
                 continue
             c = classify(p, Lin.sym("@e"), q)
@@ -401,9 +410,16 @@ def zero_mod(lin, m, facts):
         return False
     msym = list(m.terms)[0]
     subst = {}
-    for name, d in SYMDEFS.items():
-        if d[0] == "mod" and d[2] == m and len(d[1].terms) == 1 and d[1].const == 0 and list(d[1].terms.values())[0] == 1:
-            subst[list(d[1].terms)[0]] = Lin.sym(name)
+    live = set(lin.symbols())
+    for f_, _ in facts.items:
+        live |= f_.symbols()
+    for name, d in sorted(SYMDEFS.items()):
+        if name not in live:
+            continue  # only remainders that were computed on this trace
+        if d[0] == "mod" and d[2] == m and len(d[1].terms) == 1 and d[1].const == 0 and list(d[1].terms.values())[0] in (1, -1):
+            x, c = list(d[1].terms.items())[0]
+            if x not in subst:
+                subst[x] = Lin.sym(name).scale(c)  # c*x ≡ name  =>  x ≡ c*name   (c = ±1)
     red = lin.subst(subst)
     coef = red.terms.get(msym, 0)
     if coef.denominator != 1:
@@ -441,6 +457,7 @@ def rule_naive_predict(ctx, repo, runs):
             if seen[k] > 1:
                 k = "%s#%d" % (k, seen[k])
             envs = feasible(grid(sc), s.facts)
+            nonvacuous(ctx, "R2", k, loc, envs)
             if sc.strategy == "drift":
                 check_drift(ctx, k, loc, ret, sc, s.facts, envs)
                 continue
@@ -449,6 +466,7 @@ def rule_naive_predict(ctx, repo, runs):
                 continue
             eq_lin(ctx, "R2", k + ":length", loc, ret.shape[0], LFH, s.facts, envs, "length of the returned forecast array")
             check_reshapes(ctx, k, loc, ret, s.facts, envs)
+            check_padding(ctx, k, loc, ret, s.facts)
             check_selection(ctx, k, loc, ret, sc, s.facts, envs)
 
 
@@ -500,6 +518,30 @@ def check_reshapes(ctx, k, loc, ret, facts, envs):
             "the padded window (%r elements) cannot be reshaped to %r x %r" % (total, r.rows, r.cols))
 
 
+def paddings_of(term, out=None):
+    out = [] if out is None else out
+    if isinstance(term, Cat):
+        for p in term.parts:
+            if isinstance(p, Buf) and not p.stores:
+                out.append(p)
+            else:
+                paddings_of(p, out)
+    elif isinstance(term, (View, Tile, ColAgg, Flat, Resh2)):
+        paddings_of(term.base, out)
+    return out
+
+
+def check_padding(ctx, k, loc, ret, facts):
+    """Cells appended only to complete the last row must be NaN (nanmean skips them)."""
+    for i, p in enumerate(paddings_of(ret)):
+        if Q(facts).eq(p.shape[0], ZERO) is True:
+            continue
+        ctx.check(p.fill == "nan", "R3", "%s:padding-is-nan%s" % (k, "#%d" % i if i else ""),
+                  "the padding that completes the last row is NaN (skipped by nanmean)",
+                  "the padding that completes the last row is %r, which enters the seasonal means" % (p.fill,), loc,
+                  witness={"fill": repr(p.fill), "length": repr(p.shape[0])})
+
+
 def gather_of(term):
     if isinstance(term, View) and term.ndim == 1 and len(term.spec) == 1 and term.spec[0][0] == "ga":
         return term.spec[0][2], term.base
@@ -509,8 +551,13 @@ def gather_of(term):
 def check_selection(ctx, k, loc, ret, sc, facts, envs):
     """R2 (step selection / bounds) and R3 (alignment) of the last / mean strategies."""
     w = window_of(sc)
-    wit = grid_alignment(sc, ret, facts, envs)
-    rule_align = "R3" if sc.seasonal else "R2"
+    lazy = {}
+
+    def witness():
+        if "w" not in lazy:
+            lazy["w"] = grid_alignment(sc, ret, facts, envs)
+        return lazy["w"]
+
     if not sc.seasonal:
         # constant forecast: last value / window mean repeated len(fh) times
         proved = False
@@ -526,11 +573,12 @@ def check_selection(ctx, k, loc, ret, sc, facts, envs):
                 q.facts.add_cmp(c, "<=", w - 1)
                 proved = q.eq(a.shape[0], w) is True and a.cell([c], q) == ("src", "y", (N - w + c,))
         Ob(ctx, "R2", k + ":value", loc).settle(
-            proved, wit, "every step returns %s" % ("the last observation y[n-1]" if sc.strategy == "last" else "the NaN-skipping mean of the last window y[n-w .. n-1]"),
+            proved, None if proved else witness(), "every step returns %s" % ("the last observation y[n-1]" if sc.strategy == "last" else "the NaN-skipping mean of the last window y[n-w .. n-1]"),
             "the constant forecast is not %s" % ("the last observation" if sc.strategy == "last" else "the mean of the last window"))
         return
     vec, base = gather_of(ret)
     if vec is None:
+        wit = witness()
         Ob(ctx, "R2", k + ":step-selection", loc).settle(False, wit if wit is not None else "opaque", "", "the forecast is not selected from a per-season table by step")
         return
     # R2: when element e of the table is (provably) the forecast of step e + 1, the table must be read at fh - 1
@@ -588,7 +636,7 @@ def check_selection(ctx, k, loc, ret, sc, facts, envs):
             proved = zero_mod(residual, SP, f2) and whole and inside
             why = "position %r, target ≡ %r (mod sp)" % (c.pos, target)
     Ob(ctx, "R3", k + ":alignment", loc).settle(
-        proved, wit,
+        proved, None if proved else witness(),
         "step h is forecast from the window values of season (n-1+h) mod sp (all of them for `mean`, the latest for `last`): " + why,
         "step h is not forecast from the window values of the season of time n-1+h (%s)" % why)
 
@@ -757,9 +805,10 @@ def rule_in_sample(ctx, repo):
         ctx.undecided("R4", tag + ":splitter", str(e), loc)
         return
     f2 = f.copy()
-    tr, kk, sfn = run_method(repo, it2, sself, "_split", {"y": Arr("y", N, "index")}, f2)
-    # yields are collected on the state of the generator frame
-    recs = getattr(it2, "_last_yields", None)
+    hit2 = repo.lookup_method(scls, "_split")
+    if hit2 is None:
+        raise AnalysisError("CutoffSplitter._split missing")
+    kk, sfn = hit2
     st_traces, st_final = it2.run_function(Frame(kk.module, sfn, scls, kk), {"self": sself, "y": Arr("y", N, "index")}, State(facts=f2))
     recs = st_final.yields
     if len(recs) != 1 or len(recs[0].loops) != 1:
@@ -1167,9 +1216,10 @@ def run(ctx):
     rule_in_sample(ctx, repo)
     rule_time_axis(ctx, repo)
     rule_forwarding(ctx, repo)
-    ctx.floor("R1", 40)
-    ctx.floor("R2", 20)
-    ctx.floor("R3", 6)
-    ctx.floor("R4", 7)
-    ctx.floor("R5", 12)
-    ctx.floor("R6", 50)
+    # instance counts on commit 132f3d5 (+ fix 7857d98): R1 45, R2 52, R3 12, R4 8, R5 14, R6 88
+    ctx.floor("R1", 45)
+    ctx.floor("R2", 40)
+    ctx.floor("R3", 8)
+    ctx.floor("R4", 8)
+    ctx.floor("R5", 14)
+    ctx.floor("R6", 80)
